@@ -13,6 +13,7 @@ func TestCheck(t *testing.T) {
 	vfw.Main(t, "C05", func(c *vfw.Ctx) {
 		c.Level("model_checking")
 		c.Rule("layer 1 (explicit-state graph search): all action sequences the real transports can produce over {CommitConnected, CommitSelected, CommitSelectLost, inject(evDisconnect), inject(evT7Timeout), requestClose, step(next queued event), step with <= 2 commits landing between step's load and store} on the REAL supervisor (no goroutines, harness-owned event queue), breadth-first to closure, states merged by (implementation state, lastReacted, closed latch, queue, reference state); oracle after every action: State() equals the reference in which a change takes effect exactly when its cause does (commit, or processing of disconnect / valid T7 / close), a T7 is valid only for the NotSelected dwell it was armed in, nothing changes after the close latch; notification chain rule; and for every history with more notifications than a buffer of 1 or 2 entries holds, the same history with a stalled handler (buffer of that size, read only at the end; build-tag hook): what is finally delivered is an in-order subsequence without self-transitions ending with the most recent transition, delivered + reported-coalesced = number of transitions, the chain breaks only where coalescing was reported")
+		c.Rule("T7 dwell (E2 on the instrumented tree): {active, passive} x {no linktest, linktest configured}: TCP up (T7 = 5 s armed), select 1 s later, Deselect.req 2 s after that, then nothing: State() stays NotSelected and the socket open until the NEW dwell's T7 is over (the timer armed before the select would fall 2 s into it), and the link is given up then")
 		c.Rule("straggler (E2 on the instrumented tree): {active, passive} x generation 1 dropped by the library's own linktest (mute peer; the receive goroutine sits in the handler) while a data handler runs that takes 8 s (close timeout 1 s: the bounded teardown gives up on the receive goroutine), generation 2 established and Selected before the handler returns: State() stays Selected, generation 2's socket stays open and no state-change notification is delivered for 2 s after the handler returned")
 		c.Rule("layer 3 (E3): every schedule with <= B departures (quick B=1, thorough B=2) from the canonical schedule of small multi-threaded system scenarios on the real, build-time-instrumented library (scheduling point before every mutex, atomic, channel, select, close, cancel and go operation; select's ready-case choice owned by the scheduler) in a synctest bubble; monitors at every scheduling point: legal E37 edges of State(), NotConnected after Close returned, no stale-T7 disconnect of a session that reached Selected; a new generation is not taken down by a writer that was pinned to the old one (scenario active-send-vs-drop-reselect); at quiescence: notification chain rule. non-trivial = execution with >= 1 decision")
 		c.Assume("instrumenter rule set (a missed synchronisation operation removes interleavings, it cannot add false ones)", "testing/synctest", "sim network", "layer 1 alphabet restricted to transport-producible sequences")
@@ -22,6 +23,7 @@ func TestCheck(t *testing.T) {
 		}
 		partGraph(c)
 		partStraggler(c, t)
+		partT7Dwell(c, t)
 		partSched(c, t)
 	})
 }
@@ -30,6 +32,11 @@ func replayAny(c *vfw.Ctx, t *testing.T) {
 	var sg stragglerCase
 	if err := json.Unmarshal(c.Replay, &sg); err == nil && sg.Straggler {
 		oneStraggler(c, t, sg)
+		return
+	}
+	var td t7dwellCase
+	if err := json.Unmarshal(c.Replay, &td); err == nil && td.T7Dwell {
+		oneT7Dwell(c, t, td)
 		return
 	}
 	var g graphReplay
